@@ -35,7 +35,7 @@ def parse_deductive(rep, funs=None):
     fw.deductive(rep, ['yp_prolog_visitor.YPPrologVisitor.' + f for f in (funs or PARSE_BODY + PARSE_TERM + PARSE_CLAUSE)],
                  ['visitor_parse'], ['control.smt2', 'parse.smt2'], theory=ParseTheory)
     fw.add_smt(rep, lemmas.prove_parse_lemmas(), 'spec.parse-lemmas')
-    rep.lemmas.append('L-TCNT-NONNEG, L-PECNT-NONNEG (induction), L-WF-PAIRS (unfolding): lemmas of spec/parse.smt2 (SMT)')
+    rep.lemmas.append('L-TCNT-NONNEG, L-PECNT-NONNEG: lemmas of spec/parse.smt2 by induction (SMT)')
     rep.assumptions.append('A-EXT-ANTLR (visitor): the parse tree is a derivation of prolog.g4 (datatypes TT/SP/PE of spec/parse.smt2: one '
                            'constructor per alternative, token texts in their lexer classes); terms of the forms name/arity and '
                            'numeral(...) are outside the contracts (the compiler rejects them with an AttributeError: observed, bounded); '
